@@ -24,3 +24,8 @@ package v1
 //@ func v1.postTransaction
 //@   requires r != nil
 //@   property C09
+
+// C04: the balances endpoint derives each balance from the account's volumes, so the query it hands to the engine must
+// ask for them (without the flag the store returns accounts with no volumes and the endpoint reports no balance at all)
+//@ func v1.getBalances
+//@   property C04
